@@ -66,7 +66,8 @@ pub struct T {
     pub acc_out: bool,
     pub acc_err: bool,
     pub dur: Option<u64>,
-    /// `config.wait` in ms (time that passes before the command starts, after its limit was computed)
+    /// `config.wait` in ms: time that passes before the command starts and before the remaining time of the document is
+    /// looked at; sat out no longer than what is left of the document limit (the model's `cappedWait`)
     pub wait: u64,
 }
 impl T {
@@ -371,6 +372,7 @@ enum Beh {
     /// the same, in a shell that ignores SIGTERM (`trap '' TERM`) or defers it (`trap : TERM`): "is aborted" must not depend on the command's cooperation
     SleepNoTerm(u64, bool),
     /// `{wait: <w>ms}` then a sleep of `ms`: the wait passes before the remaining time of the document is looked at
+    /// (and is sat out no longer than what is left of the document limit)
     WaitSleep(u64, u64),
     /// Cram only: the command leaves the shell (`exit N`): the one script ends here
     ExitShell(i32),
@@ -1011,8 +1013,9 @@ fn timed_spec(d: &EDoc) -> Vec<(usize, &'static str)> {
     for (i, (b, to)) in d.tests.iter().enumerate() {
         let dur = match b { Beh::Sleep(ms) | Beh::SleepNoTerm(ms, _) | Beh::WaitSleep(_, ms) => *ms, _ => 0 };
         let wait = if let Beh::WaitSleep(w, _) = b { *w } else { 0 };
-        // the wait passes before the remaining time of the document is looked at (fix 5800e20)
-        now += wait;
+        // the wait passes before the remaining time of the document is looked at (fix 5800e20); it is sat out no
+        // longer than what is left of the document limit (the model's `startOf`)
+        now += total.map_or(wait, |t| wait.min(t.saturating_sub(now)));
         let rem = total.map(|t| t.saturating_sub(now));
         let lim = match (to, rem) {
             (Some(p), Some(r)) => Some((*p).min(r)),
@@ -1073,11 +1076,12 @@ fn timed_case(prop: &str, d: EDoc, tmproot: &Path, idx: u64) -> CaseRec {
         let mut now = 0u64;
         for (i, (b, _)) in d.tests.iter().enumerate() {
             let dur = match b { Beh::Sleep(ms) | Beh::SleepNoTerm(ms, _) | Beh::WaitSleep(_, ms) => *ms, _ => 0 };
+            let total = match d.total { None => 900_000, Some(0) => u64::MAX, Some(t) => t };
             if let Beh::WaitSleep(w, _) = b {
-                now += *w;
+                // capped by what is left of the document limit
+                now += (*w).min(total.saturating_sub(now));
             }
             if want.get(i).map(|w| w.1) == Some("timeout") {
-                let total = match d.total { None => 900_000, Some(0) => u64::MAX, Some(t) => t };
                 let lim = d.tests[i].1.unwrap_or(u64::MAX).min(total.saturating_sub(now));
                 now += lim;
                 break;
@@ -1096,6 +1100,152 @@ fn timed_case(prop: &str, d: EDoc, tmproot: &Path, idx: u64) -> CaseRec {
         oracle_fail: keep(prop, fails),
         nontrivial: true,
         tags: vec!["e2e:timed".into()],
+    }
+}
+
+/// reported kinds of the test cases titled `first`, `second`, ... of a `-r json` run
+fn titled_kinds(stdout: &str, titles: &[&str]) -> Vec<(usize, String)> {
+    let json: Option<serde_json::Value> = stdout.find('[').and_then(|p| serde_json::from_str(&stdout[p..]).ok());
+    let mut got: Vec<(usize, String)> = vec![];
+    if let Some(serde_json::Value::Array(items)) = &json {
+        for it in items {
+            let title = it.get("title").and_then(|t| t.as_str()).or_else(|| it.pointer("/testcase/title").and_then(|t| t.as_str())).unwrap_or("");
+            let kind = it.pointer("/result/kind").and_then(|k| k.as_str()).unwrap_or("?").to_string();
+            if let Some(i) = titles.iter().position(|t| *t == title) {
+                got.push((i, kind));
+            }
+        }
+    }
+    got
+}
+
+/// the `wait` of a test case ALONE outlasts the document limit: the wait is sat out no longer than what is left of the
+/// limit, the test case is due with nothing left (timeout), the later ones are skipped, the run is over at the limit.
+/// idx: 0 `{wait: 3s}` under front matter `total_timeout: 1s`; 1 the same under `--timeout-seconds 1`;
+/// 2 / 3 `{wait: {timeout: 3s, path: never-there}}` under the two kinds of limit; 4 / 5 the two forms of wait behind a
+/// test case that has used 0.3 s of the limit up; 6 control: a wait of 0.5 s under 5 s is sat out in full and passes
+fn wait_outlasts_case(prop: &str, idx: u64, tmproot: &Path) -> CaseRec {
+    let control = idx == 6;
+    let path_form = idx == 2 || idx == 3 || idx == 5;
+    let cli_limit = idx == 1 || idx == 3;
+    let lead = idx == 4 || idx == 5;
+    let (wait_ms, limit_ms): (u64, u64) = if control { (500, 5000) } else { (3000, 1000) };
+    let dir = tmproot.join(format!("waitcap-{idx}"));
+    let _ = std::fs::remove_dir_all(&dir);
+    std::fs::create_dir_all(dir.join("tmp")).unwrap();
+    let started = dir.join("started");
+    let wait_cfg = if path_form { format!("wait: {{timeout: {}s, path: never-there}}", wait_ms / 1000) } else if control { format!("wait: {wait_ms}ms") } else { format!("wait: {}s", wait_ms / 1000) };
+    let mut text = String::new();
+    let mut args: Vec<String> = vec![];
+    if cli_limit {
+        args.push("--timeout-seconds".into());
+        args.push(format!("{}", limit_ms / 1000));
+    } else {
+        text.push_str(&format!("---\ntotal_timeout: {}s\n---\n\n", limit_ms / 1000));
+    }
+    let mut titles: Vec<&str> = vec![];
+    if lead {
+        text.push_str("# lead\n\n```scrut\n$ sleep 0.3; echo ok\nok\n```\n\n");
+        titles.push("lead");
+    }
+    text.push_str(&format!("# waits\n\n```scrut {{{wait_cfg}}}\n$ echo started > {}; echo ok\nok\n```\n\n# later\n\n```scrut\n$ echo ok\nok\n```\n\n# last\n\n```scrut\n$ echo ok\nok\n```\n", started.display()));
+    titles.extend(["waits", "later", "last"]);
+    let p = dir.join("doc.md");
+    std::fs::write(&p, text).unwrap();
+    let t0 = std::time::Instant::now();
+    let out = std::process::Command::new(scrut_bin()).arg("test").arg("-r").arg("json").args(&args).arg(&p).current_dir(&dir).env("TMPDIR", dir.join("tmp")).output().expect("run scrut");
+    let wall = t0.elapsed().as_millis() as u64;
+    let code = out.status.code().unwrap_or(-1);
+    let got = titled_kinds(&String::from_utf8_lossy(&out.stdout), &titles);
+    let w = lead as usize; // index of the test case that waits
+    let kind = |i: usize| got.iter().find(|(j, _)| *j == i).map(|(_, k)| k.as_str()).unwrap_or("?").to_string();
+    let mut fails = vec![];
+    let what = format!("`{{{wait_cfg}}}` under {} of {limit_ms} ms{}", if cli_limit { "--timeout-seconds" } else { "total_timeout" }, if lead { ", behind a test case of 0.3 s" } else { "" });
+    if control {
+        if got.iter().any(|(_, k)| k != "success") || got.len() != titles.len() || code != 0 || wall < wait_ms {
+            fails.push(("C14:timed-e2e".to_string(), format!("{what}: reported {got:?}, exit status {code}, after {wall} ms; expected three successes, exit status 0, not before {wait_ms} ms")));
+        }
+    } else {
+        let mut why = vec![];
+        if wall > limit_ms + 1500 {
+            why.push(format!("the run took {wall} ms against a document limit of {limit_ms} ms"));
+        }
+        if kind(w) != "timeout" {
+            why.push(format!("the waiting test case was reported {:?}, not \"timeout\"", kind(w)));
+        }
+        for i in w + 1..titles.len() {
+            if kind(i) != "skipped" {
+                why.push(format!("test case {i} (after the aborted one) was reported {:?}, not \"skipped\"", kind(i)));
+            }
+        }
+        if lead && kind(0) != "success" {
+            why.push(format!("the test case in front was reported {:?}", kind(0)));
+        }
+        if !why.is_empty() {
+            fails.push(("C14:wait-outlasts-document-limit".to_string(), format!("{what}: {} (reported {got:?}, exit status {code})", why.join("; "))));
+        }
+        if code != 50 {
+            fails.push(("C14:timed-exit".to_string(), format!("{what}: exit status {code}, expected 50")));
+            fails.push(("C20:exit-status".to_string(), format!("{what}: exit status {code}, expected 50")));
+        }
+    }
+    let _ = std::fs::remove_dir_all(&dir);
+    let base = T { expected: None, stream: 'o', skip: Some(80), timeout: None, acc_empty: false, status: St::Code(0), acc_out: true, acc_err: true, dur: Some(10), wait: 0 };
+    let mut model: Vec<T> = vec![];
+    if lead {
+        model.push(T { dur: Some(300), ..base.clone() });
+    }
+    model.push(T { wait: wait_ms, ..base.clone() });
+    model.push(base.clone());
+    model.push(base);
+    CaseRec {
+        op: format!("rundocs {} case=waitcap.{idx}", doc_field(false, Some(limit_ms), &model)),
+        impl_out: format!("{} exit={}", got.iter().map(|(i, k)| format!("{i}:{k}")).collect::<Vec<_>>().join(","), code),
+        oracle_fail: keep(prop, fails),
+        nontrivial: true,
+        tags: vec!["e2e:wait-outlasts-document-limit".into(), format!("e2e:waitcap-form={}", if path_form { "path" } else { "plain" }), format!("e2e:waitcap-limit={}", if cli_limit { "cli" } else { "front-matter" })],
+    }
+}
+
+/// a time limit beyond what the clock can express (`Instant + Duration` overflows) is no limit: the document passes.
+/// idx: 0 Markdown under `--timeout-seconds 18446744073709551615`; 1 Cram under the same; 2 front matter
+/// `total_timeout: 0s` and a block `{timeout: 500000000000years}`; 3 the same per-test limit under the default
+/// document limit (control: the smaller limit is the one handed on, nothing overflows)
+fn huge_limit_case(prop: &str, idx: u64, tmproot: &Path) -> CaseRec {
+    let dir = tmproot.join(format!("hugelimit-{idx}"));
+    let _ = std::fs::remove_dir_all(&dir);
+    std::fs::create_dir_all(dir.join("tmp")).unwrap();
+    let huge_cli = vec!["--timeout-seconds".to_string(), "18446744073709551615".to_string()];
+    let (name, text, args): (&str, String, Vec<String>) = match idx {
+        0 => ("doc.md", "# first\n\n```scrut\n$ echo ok\nok\n```\n\n# second\n\n```scrut\n$ echo ok\nok\n```\n".to_string(), huge_cli),
+        1 => ("doc.t", "first\n  $ echo ok\n  ok\n\nsecond\n  $ echo ok\n  ok\n".to_string(), huge_cli),
+        2 => ("doc.md", "---\ntotal_timeout: 0s\n---\n\n# first\n\n```scrut {timeout: 500000000000years}\n$ echo ok\nok\n```\n\n# second\n\n```scrut\n$ echo ok\nok\n```\n".to_string(), vec![]),
+        _ => ("doc.md", "# first\n\n```scrut {timeout: 500000000000years}\n$ echo ok\nok\n```\n\n# second\n\n```scrut\n$ echo ok\nok\n```\n".to_string(), vec![]),
+    };
+    let p = dir.join(name);
+    std::fs::write(&p, text).unwrap();
+    let out = std::process::Command::new(scrut_bin()).arg("test").arg("-r").arg("json").args(&args).arg(&p).current_dir(&dir).env("TMPDIR", dir.join("tmp")).output().expect("run scrut");
+    let code = out.status.code().unwrap_or(-1);
+    let got = titled_kinds(&String::from_utf8_lossy(&out.stdout), &["first", "second"]);
+    let mut fails = vec![];
+    if code != 0 || got != vec![(0usize, "success".to_string()), (1usize, "success".to_string())] {
+        let stderr = String::from_utf8_lossy(&out.stderr);
+        let hint = stderr.lines().find(|l| l.contains("panicked") || l.contains("overflow")).unwrap_or("").to_string();
+        fails.push(("C14:huge-limit-crashes".to_string(), format!("huge limit scenario {idx} ({name}, arguments {args:?}): exit status {code}, reported {got:?}; expected two successes and exit status 0 {hint}")));
+    }
+    let _ = std::fs::remove_dir_all(&dir);
+    let cram = idx == 1;
+    // the model counts in ms: the largest value the op line carries stands for "beyond the clock"
+    let huge = i64::MAX as u64;
+    let base = T { expected: None, stream: if cram { 'c' } else { 'o' }, skip: Some(80), timeout: None, acc_empty: false, status: St::Code(0), acc_out: true, acc_err: true, dur: if cram { None } else { Some(10) }, wait: 0 };
+    let first = T { timeout: if idx >= 2 { Some(huge) } else { None }, ..base.clone() };
+    let total = match idx { 0 | 1 => Some(huge), 2 => Some(0), _ => None };
+    CaseRec {
+        op: format!("rundocs {} case=hugelimit.{idx}", doc_field(cram, total, &[first, base])),
+        impl_out: format!("{} exit={}", got.iter().map(|(i, k)| format!("{i}:{k}")).collect::<Vec<_>>().join(","), code),
+        oracle_fail: keep(prop, fails),
+        nontrivial: true,
+        tags: vec!["e2e:huge-limit".into()],
     }
 }
 
@@ -1419,6 +1569,16 @@ pub fn run(ctx: &Ctx, prop: &str) {
     if prop == "C14" || ctx.thorough {
         let tr = tmproot.clone();
         ctx.run_stream("e2e-timeout-aborts-exhaustive", 14, true, |idx| Some(abort_case(prop, idx, &tr)));
+    }
+    // 4b0. a wait that alone outlasts the document limit is cut at the limit (C14; the exit status also for C20)
+    if prop == "C14" || prop == "C20" || ctx.thorough {
+        let tr = tmproot.clone();
+        ctx.run_stream("e2e-wait-outlasts-document-limit-exhaustive", 7, true, |idx| Some(wait_outlasts_case(prop, idx, &tr)));
+    }
+    // 4b1. a limit beyond what the clock can express is no limit (C14; the exit status also for C20)
+    if prop == "C14" || prop == "C20" || ctx.thorough {
+        let tr = tmproot.clone();
+        ctx.run_stream("e2e-huge-limit-exhaustive", 4, true, |idx| Some(huge_limit_case(prop, idx, &tr)));
     }
     // 4b'. single-script execution: a skip code in front of a timeout skips the document (C15; also C14, C20)
     if prop == "C15" || prop == "C14" || ctx.thorough {
